@@ -42,7 +42,9 @@ def withProgram (sexp : String) (f : Program → String) : String :=
 /-- answer tag of a successful emission: the theorems about emitted scripts assume `wfStmts` of the
     AST, so an AST that is not well-formed is reported (it shows up as a correspondence break) -/
 def wfTag (p : Program) : String :=
-  if !wfStmts p then "NOTWF " else if !typedProgram p then "ILLTYPED "
+  -- typed: the parser's guarantee (PT.program, Props/C06Sem); where the program has none of the two constructs the parser takes
+  -- beyond the emitters' discipline (PT.strictSs) also that discipline (typedProgram)
+  if !wfStmts p then "NOTWF " else if !PT.program p || (PT.strictSs p && !typedProgram p) then "ILLTYPED "
   else if !placedStmts { brkAnywhere := true } p then "MISPLACED " else "OK "
 
 /-- PTCHECK <sexp>: the conclusion of the parser theorem (Props/C06Sem) evaluated on an AST of the real parser -/
